@@ -7,7 +7,7 @@
 From DV Require Import Base.Prelude Model.NameM Model.SchemaM.
 Open Scope Z_scope.
 
-Inductive hid := HHip | HIpseckey | HAmtrelay | HApl.
+Inductive hid := HHip | HIpseckey | HAmtrelay | HApl | HSvcb.
 
 Definition get_u (wire : list Z) (endp cur w : nat) : res (Z * nat) :=
   do bc <- get_bytes wire endp cur w; Ok (be_decode (fst bc), snd bc).
@@ -210,10 +210,147 @@ Definition apl_enc (o : option name) (vs : list val) : res (list Z) :=
   | _ => Internal eBadCase
   end.
 
+(* ------------------------------------------------------------------ SVCB / HTTPS *)
+(* dns/rdtypes/svcbbase.py.  Value: [VS (VI priority); VS (VN target); VL [[VI key; VB value]...]]
+   where `value` is the wire form of the parameter value (every Param class re-emits exactly the
+   octets it accepted, so the per-key parsers are modelled as acceptance predicates). *)
+
+Fixpoint u16s (b : list Z) : option (list Z) :=
+  match b with
+  | [] => Some []
+  | hi :: lo :: r => match u16s r with Some l => Some (hi * 256 + lo :: l) | None => None end
+  | _ => None
+  end.
+
+Fixpoint strictly_asc (last : Z) (l : list Z) : bool :=
+  match l with
+  | [] => true
+  | x :: r => (last <? x) && strictly_asc x r
+  end.
+
+(* MandatoryParam: uint16 keys, ascending on the wire, no duplicates, never key 0 *)
+Definition mandatory_keys (raw : list Z) : option (list Z) :=
+  match u16s raw with
+  | Some ks => if strictly_asc 0 ks then Some ks else None
+  | None => None
+  end.
+
+(* _StringList / ALPNParam: counted strings, none empty, exactly filling the value *)
+Fixpoint strlist_ok (fuel : nat) (b : list Z) : bool :=
+  match b with
+  | [] => true
+  | n :: r =>
+      match fuel with
+      | O => false
+      | S f => (0 <? n) && (n <=? zlen r) && strlist_ok f (skipn (Z.to_nat n) r)
+      end
+  end.
+
+Definition svcb_param_ok (key : Z) (raw : list Z) : bool :=
+  if key =? 0 then match mandatory_keys raw with Some _ => true | None => false end
+  else if (key =? 1) || (key =? 10) then strlist_ok (length raw) raw
+  else if (key =? 2) || (key =? 8) then Nat.eqb (length raw) 0
+  else if key =? 3 then Nat.eqb (length raw) 2
+  else if key =? 4 then Nat.eqb (length raw mod 4) 0
+  else if key =? 6 then Nat.eqb (length raw mod 16) 0
+  else true.
+
+(* the while loop of SVCBBase.from_wire_parser; prior = last key seen (starts at -1) *)
+Fixpoint svcb_params_dec (fuel : nat) (wire : list Z) (endp cur : nat) (prior : Z)
+  : res (list (list sval) * nat) :=
+  if Nat.leb endp cur then Ok ([], cur)
+  else
+    match fuel with
+    | O => Internal iFuel
+    | S fuel' =>
+        do key <- get_u wire endp cur 2;
+        if fst key <? prior then Lib eFormError
+        else
+          do vlen <- get_u wire endp (snd key) 2;
+          (* restrict_to(vlen) + the parameter's own parser, which must consume exactly vlen *)
+          do raw <- get_bytes wire endp (snd vlen) (Z.to_nat (fst vlen));
+          if negb (svcb_param_ok (fst key) (fst raw)) then Lib eFormError
+          else
+            do rest <- svcb_params_dec fuel' wire endp (snd raw) (fst key);
+            Ok ([VI (fst key); VB (fst raw)] :: fst rest, snd rest)
+    end.
+
+(* params[pkey] = value : a repeated key keeps the last value; to_wire emits sorted keys *)
+Fixpoint dedupe_last (l : list (list sval)) : list (list sval) :=
+  match l with
+  | [VI k; v] :: (([VI k'; _] :: _) as r) => if k =? k' then dedupe_last r else [VI k; v] :: dedupe_last r
+  | x :: r => x :: dedupe_last r
+  | [] => []
+  end.
+
+Definition svcb_keys (ps : list (list sval)) : list Z :=
+  flat_map (fun r => match r with VI k :: _ => [k] | _ => [] end) ps.
+
+Definition mem_z (k : Z) (l : list Z) : bool := existsb (Z.eqb k) l.
+
+(* SVCBBase.__init__: mandatory keys present; no-default-alpn needs alpn *)
+Definition svcb_record_ok (ps : list (list sval)) : bool :=
+  let keys := svcb_keys ps in
+  forallb (fun r => match r with
+                    | [VI 0; VB raw] => match mandatory_keys raw with
+                                        | Some ks => forallb (fun k => mem_z k keys) ks
+                                        | None => false
+                                        end
+                    | _ => true
+                    end) ps
+  && (negb (mem_z 2 keys) || mem_z 1 keys).
+
+Definition svcb_param_row_ok (r : list sval) : bool :=
+  match r with
+  | [VI k; VB raw] => (0 <=? k) && (k <=? 65535) && (zlen raw <=? 65535) && svcb_param_ok k raw
+  | _ => false
+  end.
+
+Definition svcb_valid (vs : list val) : bool :=
+  match vs with
+  | [VS (VI prio); VS (VN target); VL ps] =>
+      (0 <=? prio) && (prio <=? 65535) && name_ok target
+      && forallb svcb_param_row_ok ps && strictly_asc (-1) (svcb_keys ps) && svcb_record_ok ps
+  | _ => false
+  end.
+
+Definition svcb_dec (wire : list Z) (o : option name) (endp cur : nat) : res (list val * nat) :=
+  do prio <- get_u wire endp cur 2;
+  do tgt <- get_name wire o true endp (snd prio);
+  if (fst prio =? 0) && negb (Nat.eqb (endp - snd tgt) 0) then Lib eFormError
+  else
+    do ps <- svcb_params_dec (S (endp - snd tgt)) wire endp (snd tgt) (-1);
+    Ok ([VS (VI (fst prio)); VS (VN (fst tgt)); VL (dedupe_last (fst ps))], snd ps).
+
+Fixpoint svcb_params_enc (ps : list (list sval)) : res (list Z) :=
+  match ps with
+  | [] => Ok []
+  | [VI k; VB raw] :: r =>
+      if (0 <=? k) && (k <? 65536) && (zlen raw <? 65536) then
+        do rest <- svcb_params_enc r;
+        Ok (be_encode 2 k ++ be_encode 2 (zlen raw) ++ raw ++ rest)
+      else Internal iStructError
+  | _ => Internal eBadCase
+  end.
+
+Definition svcb_enc (o : option name) (vs : list val) : res (list Z) :=
+  match vs with
+  | [VS (VI prio); VS (VN target); VL ps] =>
+      if (0 <=? prio) && (prio <? 65536) then
+        do t <- NameM.to_wire target o false;
+        do p <- svcb_params_enc ps;
+        Ok (be_encode 2 prio ++ t ++ p)
+      else Internal iStructError
+  | _ => Internal eBadCase
+  end.
+
+Definition svcb_shape : list fld :=
+  [FS (FU 2 65535); FS (FName true); FRepeat false false [FU 2 65535; FCounted 2 0 65535]].
+
 (* ------------------------------------------------------------------ dispatch *)
-Definition hand_dec (h : hid) := match h with HHip => hip_dec | HIpseckey => ipseckey_dec | HAmtrelay => amtrelay_dec | HApl => apl_dec end.
-Definition hand_valid (h : hid) := match h with HHip => hip_valid | HIpseckey => ipseckey_valid | HAmtrelay => amtrelay_valid | HApl => apl_valid end.
-Definition hand_enc (h : hid) := match h with HHip => hip_enc | HIpseckey => ipseckey_enc | HAmtrelay => amtrelay_enc | HApl => apl_enc end.
+Definition hand_dec (h : hid) := match h with HHip => hip_dec | HIpseckey => ipseckey_dec | HAmtrelay => amtrelay_dec | HApl => apl_dec | HSvcb => svcb_dec end.
+Definition hand_valid (h : hid) := match h with HHip => hip_valid | HIpseckey => ipseckey_valid | HAmtrelay => amtrelay_valid | HApl => apl_valid | HSvcb => svcb_valid end.
+Definition hand_enc (h : hid) := match h with HHip => hip_enc | HIpseckey => ipseckey_enc | HAmtrelay => amtrelay_enc | HApl => apl_enc | HSvcb => svcb_enc end.
 
 (* dns.rdata.from_wire for a hand-modelled class (same frame as SchemaM.decode_rdata) *)
 Definition hand_decode_rdata (h : hid) (origin : option name) (wire : list Z) (cur rdlen : nat)
@@ -250,6 +387,7 @@ Definition hand_vals_of_obs (h : hid) (os : list obs) : option (list val) :=
   match h with
   | HHip => vals_of_obs hip_shape os
   | HApl => vals_of_obs apl_shape os
+  | HSvcb => vals_of_obs svcb_shape os
   | HIpseckey =>
       match os with
       | [I p; I g; I a; gw; B k] =>
@@ -270,3 +408,4 @@ Definition obs_of_hand_vals (h : hid) (vs : list val) : obs :=
   | HAmtrelay, [p; d; t; gw] => L [obs_of_val p; obs_of_val d; obs_of_val t; obs_of_gw gw]
   | _, _ => L (map obs_of_val vs)
   end.
+
